@@ -404,6 +404,14 @@ fn plans_c12(tier: Tier) -> Vec<Plan> {
             v.push(Plan { cfg: c, depth_by_devs: vec![if q { 4 } else { 5 }] });
         }
     }
+    // topics that start with '$': no filter matches them, whatever was published or
+    // subscribed first (a shared subscription is the only way to create a filter whose
+    // text starts with '$' in this broker: the group prefix is stripped)
+    for (f, s2) in [("$share/g/$x", "#"), ("$share/g/$x/+", "+/y"), ("$share/g/$x/#", "$share/h/+/y")] {
+        let mut c = mk("C12", 1, 4, &["$x", "$x/y", "a/y"], &[f, s2]);
+        c.manual = false;
+        v.push(Plan { cfg: c, depth_by_devs: vec![if q { 4 } else { 5 }] });
+    }
     v
 }
 
